@@ -239,8 +239,7 @@ def model_cfg(tier, tpl):
     cfg = open(os.path.join(SPEC_DIR, "Estimation.cfg")).read()
     cfg = cfg.replace('Tpl = "T4"', 'Tpl = "%s"' % tpl)
     if tier == "thorough":
-        cfg = cfg.replace("MaxV = 1", "MaxV = 2").replace('FlowPats = {"none", "f", "t"}', 'FlowPats = {"none", "f", "t", "ft"}')
-        cfg = cfg.replace("Surplus = 0", "Surplus = 2").replace('Dups = {"none", "first", "all"}', 'Dups = {"none", "first", "v", "all"}')
+        cfg = cfg.replace("MaxV = 1", "MaxV = 2").replace("Surplus = 0", "Surplus = 2")
         cfg = cfg.replace('Reds = {"none", "v_all", "p_inj", "pq_to", "p_from_q_to", "i_from", "all_but_i", "all"}',
                           'Reds = {"none", "v_all", "p_inj", "q_inj", "pq_from", "pq_to", "p_from_q_to", "i_from", "i_to", "all_but_i", "all"}')
     if cfg.count("Surplus = 2") + cfg.count("Surplus = 0") != 1 or ("q_inj" in cfg) != (tier == "thorough"):
@@ -300,6 +299,9 @@ def run(tier, seed, replay=None):
             for k, ref in (("ref_ord", o), ("ref_red", d)):
                 c[k] = dict(ref["est"], has=True) if ref is not None else dict(NOREF)
                 c[k + "_table"] = ref["table"] if ref is not None else []
+    if os.environ.get("VERIF_C19_CASES"):      # development aid: keep the observations of this run
+        with open(os.environ["VERIF_C19_CASES"], "w") as fh:
+            json.dump(cases, fh)
     fails, conf = [], []
     ost = {"states": 0, "generated": 0}
     for tpl in ("T4", "T3"):
@@ -318,7 +320,7 @@ def run(tier, seed, replay=None):
         s = c["s"]
         feat = "red=%s,dup=%s,ord=%s" % (s["red"], s["dup"], s["ord"])
         if name == "C19_AltAlgorithms":
-            feat = "alg=%s" % "+".join(a["alg"] for a in c["alts"] if a["acc"] and a["ok"])
+            feat = "alg=%s" % "+".join(a["alg"] for a in c["alts"] if a["acc"] and a["ok"] and a["alg"] != "lp")
         elif name in ("C19_NoBadDataRemoved", "C19_RnTestPasses"):      # classes computed by the spec (out.nocritical, out.df)
             feat = "critical_measurement" if c["cls"]["critical"] else "no_critical_measurement"
         elif name == "C19_NoBadDataChi2":
@@ -330,6 +332,12 @@ def run(tier, seed, replay=None):
         v.divergence("%s: structure %s (tpl %s): est.exc=%s z=%s alts=%s" % (
             name, c["s"], c["tpl"], c["est"]["exc"], c["z"], [(a["alg"], a["acc"], a["ok"], a["exc"]) for a in c["alts"]]))
     req = [c for c in cases if c["bad"]["ran"] and c["pf"]["ok"]]
+    if not replay:      # vacuity guard: the antecedents of every clause must occur in the run
+        from ..tla import MachineryError
+        n_ok = sum(c["est"]["ok"] for c in req)
+        if not (n_ok and any(c["ref_ord"]["has"] and c["ref_ord"]["ok"] for c in req) and any(c["ref_red"]["has"] and c["ref_red"]["ok"] for c in req)
+                and any(not c["cls"]["critical"] for c in req) and any(c["cls"]["df"] >= 1 for c in req)):
+            raise MachineryError("C19 run is vacuous: %d required cases, %d successful estimates" % (len(req), n_ok))
     alt_counts = {}
     for c in cases:
         for a in c["alts"]:
@@ -362,8 +370,9 @@ def run(tier, seed, replay=None):
         "one v + flow pairs on a spanning tree); other observable sets (e.g. mixed, current-only) are not required",
         "remove_bad_data must delete no row and chi2_analysis must not report bad data on every observable set; the return "
         "value True of remove_bad_data is required only for sets without a critical measurement (spec: NoCritical)",
-        "other algorithms (thorough: irwls, lp, wls_with_zero_constraint) are compared when they accept the set and report "
-        "success; refusals and non-convergence are counted (coverage.alt_algorithms)",
+        "other algorithms (thorough): irwls and wls_with_zero_constraint must agree with the power flow when they accept the "
+        "set and report success; lp agreement is conformance only (an exact set can have a second exact root, e.g. the "
+        "low-voltage root behind a far-end flow pair); refusals and non-convergence are counted (coverage.alt_algorithms)",
         "estimate(init='flat', tolerance=1e-8); remove_bad_data / chi2_analysis with their defaults",
         "trafo/line loading_percent not compared (estimation uses trafo_loading='power')",
     ]
